@@ -36,6 +36,9 @@ pub struct IdxCase {
     pub blob_size: u64,
     /// query every key (else a spread subset when there are many)
     pub all_keys: bool,
+    /// use the key type whose order is the reversed-byte order (key lengths 8 / 33 / 400 only)
+    #[serde(default)]
+    pub rev_order: bool,
 }
 
 fn key_bytes(keylen: usize, prefix: u8, counter: u32) -> Vec<u8> {
@@ -97,9 +100,75 @@ pub fn idx_strategy() -> BoxedStrategy<IdxCase> {
                 budget = budget.saturating_sub(r);
                 versions[i] = r as u16;
             }
-            IdxCase { keylen, bloom, prefix, versions, seed, ts_span, del_pct, blob_size, all_keys }
+            IdxCase { keylen, bloom, prefix, versions, seed, ts_span, del_pct, blob_size, all_keys, rev_order: matches!(keylen, 8 | 33 | 400) && seed % 3 == 0 }
         })
         .boxed()
+}
+
+/// A key type whose order is NOT the lexicographic byte order: bytes are compared from the last to the first
+/// (a little-endian integer compared numerically). The index must use the key type's order everywhere.
+#[derive(Debug, Clone, PartialEq, Eq)]
+pub struct RevKey<const N: usize>([u8; N]);
+
+impl<const N: usize> Default for RevKey<N> {
+    fn default() -> Self {
+        Self([0; N])
+    }
+}
+impl<const N: usize> AsRef<[u8]> for RevKey<N> {
+    fn as_ref(&self) -> &[u8] {
+        &self.0
+    }
+}
+impl<const N: usize> From<Vec<u8>> for RevKey<N> {
+    fn from(v: Vec<u8>) -> Self {
+        Self(v.try_into().expect("size mismatch"))
+    }
+}
+impl<const N: usize> From<&[u8]> for RevKey<N> {
+    fn from(a: &[u8]) -> Self {
+        Self(a.try_into().expect("size mismatch"))
+    }
+}
+impl<const N: usize> PartialOrd for RevKey<N> {
+    fn partial_cmp(&self, rhs: &Self) -> Option<std::cmp::Ordering> {
+        Some(self.cmp(rhs))
+    }
+}
+impl<const N: usize> Ord for RevKey<N> {
+    fn cmp(&self, rhs: &Self) -> std::cmp::Ordering {
+        self.0.iter().rev().cmp(rhs.0.iter().rev())
+    }
+}
+#[derive(Debug, PartialEq, Eq)]
+pub struct RevRef<'a>(&'a [u8]);
+impl<'a> From<&'a [u8]> for RevRef<'a> {
+    fn from(v: &'a [u8]) -> Self {
+        Self(v)
+    }
+}
+impl<'a> PartialOrd for RevRef<'a> {
+    fn partial_cmp(&self, rhs: &Self) -> Option<std::cmp::Ordering> {
+        Some(self.cmp(rhs))
+    }
+}
+impl<'a> Ord for RevRef<'a> {
+    fn cmp(&self, rhs: &Self) -> std::cmp::Ordering {
+        self.0.iter().rev().cmp(rhs.0.iter().rev())
+    }
+}
+impl<'a> pearl::RefKey<'a> for RevRef<'a> {}
+impl<'a, const N: usize> pearl::Key<'a> for RevKey<N> {
+    const LEN: u16 = N as u16;
+    const MEM_SIZE: usize = N;
+    type Ref = RevRef<'a>;
+}
+
+fn klen<K>() -> usize
+where
+    for<'a> K: pearl::Key<'a>,
+{
+    <K as pearl::Key<'static>>::LEN as usize
 }
 
 #[derive(Clone, Debug)]
@@ -138,7 +207,10 @@ fn mv(m: &MRec) -> (u64, bool, u64) {
     (m.ts, m.deleted, m.blob_offset)
 }
 
-async fn check_key<const N: usize>(p: &IndexProbe<ArrayKey<N>>, stage: &str, key: &[u8], exp: Option<&Vec<MRec>>, q: &mut u64) -> Result<(), Failure> {
+async fn check_key<K>(p: &IndexProbe<K>, stage: &str, key: &[u8], exp: Option<&Vec<MRec>>, q: &mut u64) -> Result<(), Failure>
+where
+    for<'a> K: pearl::Key<'a> + 'static,
+{
     let ranked = exp.map(|r| rank(r)).unwrap_or_default();
     let exp_dm = cut(ranked.clone());
     let exp_all: Vec<MRec> = exp_dm.iter().filter(|m| !m.deleted).cloned().collect();
@@ -177,10 +249,15 @@ fn tail(k: &[u8]) -> &[u8] {
     &k[k.len().saturating_sub(4)..]
 }
 
-async fn run_n<const N: usize>(c: &IdxCase, dir: &Path) -> Result<CaseOut, Failure> {
+async fn run_n<K>(c: &IdxCase, dir: &Path) -> Result<CaseOut, Failure>
+where
+    for<'a> K: pearl::Key<'a> + 'static,
+{
+    #[allow(non_snake_case)]
+    let N: usize = klen::<K>();
     let _ = std::fs::create_dir_all(dir);
     let bloom = if c.bloom { Some(BloomConfig { elements: 50, hashers_count: 2, max_buf_bits_count: 1237, buf_increase_step: 1, preferred_false_positive_rate: 0.01 }) } else { None };
-    let mut probe: IndexProbe<ArrayKey<N>> = IndexProbe::new(dir, "t", 0, bloom.clone());
+    let mut probe: IndexProbe<K> = IndexProbe::new(dir, "t", 0, bloom.clone());
     let nkeys = c.versions.len();
     // build the record list and shuffle the push order
     let mut rng = Lcg(c.seed | 1);
@@ -321,6 +398,9 @@ async fn run_n<const N: usize>(c: &IdxCase, dir: &Path) -> Result<CaseOut, Failu
         labels.insert("header_divides_block".to_string());
     }
     labels.insert(format!("keylen_{}", N));
+    if c.rev_order {
+        labels.insert("non_lexicographic_key_order".to_string());
+    }
     let nontrivial = labels.contains("ge2_node_levels") || labels.contains("run_longer_than_block") || labels.contains("short_last_leaf");
     let mut stats = Stats::default();
     stats.queries = q;
@@ -333,9 +413,18 @@ pub fn run_idx(c: &IdxCase, dir: &Path) -> Result<CaseOut, Failure> {
     macro_rules! go {
         ($($n:literal),*) => {
             match c.keylen {
-                $($n => rt.block_on(run_n::<$n>(c, dir)),)*
+                $($n => rt.block_on(run_n::<ArrayKey<$n>>(c, dir)),)*
                 n => fail("index/unsupported-keylen", format!("{}", n)),
             }
+        };
+    }
+    if c.rev_order {
+        // the key type with the non-lexicographic order, for a few key lengths (fan-out 256 / 100 / 11)
+        return match c.keylen {
+            8 => rt.block_on(run_n::<RevKey<8>>(c, dir)),
+            33 => rt.block_on(run_n::<RevKey<33>>(c, dir)),
+            400 => rt.block_on(run_n::<RevKey<400>>(c, dir)),
+            n => fail("index/unsupported-keylen", format!("rev order {}", n)),
         };
     }
     go!(1, 2, 3, 4, 5, 6, 7, 8, 16, 33, 48, 65, 71, 100, 138, 284, 400, 576, 1000)
@@ -383,7 +472,7 @@ fn sweep_cases(thorough: bool) -> Vec<IdxCase> {
                     }
                     let mut versions = vec![1u16; n];
                     versions[pos] = run;
-                    out.push(IdxCase { keylen, bloom: n % 2 == 0, prefix: 0x55, versions, seed: (n as u64) << 8 | run as u64, ts_span: 2, del_pct: 15, blob_size: 12345, all_keys: n <= 400 });
+                    out.push(IdxCase { keylen, bloom: n % 2 == 0, prefix: 0x55, versions, seed: (n as u64) << 8 | run as u64, ts_span: 2, del_pct: 15, blob_size: 12345, all_keys: n <= 400, rev_order: matches!(keylen, 8 | 33 | 400) && (n + run as usize) % 2 == 0 });
                 }
             }
         }
@@ -467,7 +556,7 @@ pub fn run(ctx: &RunCtx) -> PropResult {
     PropResult {
         report,
         level: "exploration",
-        rule: "Header multisets pushed through the IndexProbe hook into the crate-private index: key length from {1,2,3,4,5,6,7,8,16,33,48,65,71,100,138,284,400,576,1000} (fan-out 454..5; 7 and 71 make the serialized header divide the 4 KiB block; 3,5,6,48,65,138,284,576 are the lengths where an inner node with one more child would still fit if the extra pointer were forgotten), key counts drawn around 1, one block, fan-out and fan-out^2 blocks (up to 3000 keys / 6000 headers), up to 4 keys with version runs of 2, 3, block-1, block, block+1, 2 blocks, 2 blocks+1 or 1..300, timestamps from 1-4 values (heavy ties), 0/15/50 % deletion markers, shuffled push order. Oracle: get_latest, get_all, get_all_with_deletion_marker and count in four stages (in memory, dumped to file, loaded back, opened from file) against a sorted-list model (timestamp desc, later push first, cut after first marker) for present keys, the absent key below each of them, below the minimum and above the maximum. A hook-free phase (storage-tree) drives 20-250 distinct keys of 100 / 400 bytes (fan-out 38 / 11, i.e. two node levels) with version runs through Storage (write, switch, wait for the dump, restart with index kept or removed) and compares every query for every key with the reference model. A second, enumerated phase sweeps key counts around every power of the fan-out and runs around block boundaries per key length. Non-trivial = >=2 node levels above the leaves, or a version run longer than a block, or a last leaf shorter than a block. distinct = FNV hash of the serialized case.".into(),
+        rule: "Header multisets pushed through the IndexProbe hook into the crate-private index: key length from {1,2,3,4,5,6,7,8,16,33,48,65,71,100,138,284,400,576,1000} (fan-out 454..5; 7 and 71 make the serialized header divide the 4 KiB block; 3,5,6,48,65,138,284,576 are the lengths where an inner node with one more child would still fit if the extra pointer were forgotten), key counts drawn around 1, one block, fan-out and fan-out^2 blocks (up to 3000 keys / 6000 headers), up to 4 keys with version runs of 2, 3, block-1, block, block+1, 2 blocks, 2 blocks+1 or 1..300, timestamps from 1-4 values (heavy ties), 0/15/50 % deletion markers, shuffled push order. For key lengths 8 / 33 / 400 a third (sweep: half) of the cases use a key type whose order is not the byte order (bytes compared from the last to the first, i.e. a little-endian integer compared numerically): every comparison inside the file index has to go through the key type. Oracle: get_latest, get_all, get_all_with_deletion_marker and count in four stages (in memory, dumped to file, loaded back, opened from file) against a sorted-list model (timestamp desc, later push first, cut after first marker) for present keys, the absent key below each of them, below the minimum and above the maximum. A hook-free phase (storage-tree) drives 20-250 distinct keys of 100 / 400 bytes (fan-out 38 / 11, i.e. two node levels) with version runs through Storage (write, switch, wait for the dump, restart with index kept or removed) and compares every query for every key with the reference model. A second, enumerated phase sweeps key counts around every power of the fan-out and runs around block boundaries per key length. Non-trivial = >=2 node levels above the leaves, or a version run longer than a block, or a last leaf shorter than a block. distinct = FNV hash of the serialized case.".into(),
         assumptions: {
             let mut a = common_assumptions();
             a.push("IndexProbe (src/verif.rs) builds headers from a bincode mirror of record::Header and calls Index::push/dump/load/get_* unchanged".into());
